@@ -224,7 +224,11 @@ static void run_stack(const char* subj, Rng& g, long nops, std::size_t block, Ma
         else if (k < 55)
         { // try_allocate
             std::size_t size = pick_size(g, block), al = pick_align(g);
-            void*       p = s.try_allocate(size, al);
+            using ctr = composable_allocator_traits<Stack>;
+            unsigned    via = unsigned(g.below(4)); // member, composable node, composable array (count * elem = size)
+            std::size_t cnt = via == 2 && size % 2 == 0 ? 2 : via == 3 && size % 3 == 0 ? 3 : 1;
+            void*       p = via == 0 ? s.try_allocate(size, al)
+                                     : via == 1 ? ctr::try_allocate_node(s, size, al) : ctr::try_allocate_array(s, cnt, size / cnt, al);
             std::string res;
             if (p)
             {
@@ -335,9 +339,21 @@ static void run_stack(const char* subj, Rng& g, long nops, std::size_t block, Ma
             for (unsigned q = 0, nq = 1 + g.below(6); q < nq; ++q)
                 reqs.push_back({g.chance(70) ? 1 + g.below(block / 2 + 1) : pick_size(g, block), pick_align(g)});
             long fails0 = R->n_fail;
+            // the unwind of each pass is done by hand or by a memory_stack_raii_unwind object (plain, moved-from /
+            // move-constructed, move-assigned, released + explicit): the effect must be the same unwind(m)
+            using Raii = memory_stack_raii_unwind<Stack>;
             for (int pass = 0; pass < 2; ++pass)
             {
-                long up0 = R->n_alloc;
+                long  up0 = R->n_alloc;
+                int   mode = int(g.below(6));
+                Raii* u = nullptr;
+                alignas(Raii) unsigned char ubuf[sizeof(Raii)];
+                if (mode != 0)
+                {
+                    u = ::new (static_cast<void*>(ubuf)) Raii(s);
+                    if (!u->will_unwind() || u->get_marker() != m || &u->get_stack() != &s)
+                        O->fail("memory_stack_raii_unwind does not hold the stack's top at its construction");
+                }
                 for (std::size_t q = 0; q < reqs.size(); ++q)
                 {
                     void*       p = nullptr;
@@ -357,9 +373,50 @@ static void run_stack(const char* subj, Rng& g, long nops, std::size_t block, Ma
                 if (pass == 1 && R->n_fail == fails0 && R->n_alloc != up0)
                     O->fail("replay after unwind asked the upstream for memory although the blocks were cached");
                 O->verify_all("before unwind");
-                auto cap_before = s.capacity_left();
-                (void)cap_before;
-                s.unwind(m);
+                switch (mode)
+                {
+                case 0: s.unwind(m); break;
+                case 1: u->~Raii(); break; // destructor unwinds
+                case 2:
+                { // move construction: the new object unwinds, the moved-from one must not
+                    {
+                        Raii u2(std::move(*u));
+                        if (u->will_unwind() || !u2.will_unwind())
+                            O->fail("memory_stack_raii_unwind move construction: wrong will_unwind()");
+                    }
+                    u->~Raii();
+                    break;
+                }
+                case 3:
+                { // move assignment onto an unwinder created now (its own marker is the current top: no effect), then scope end
+                    {
+                        Raii u3(s);
+                        u3 = std::move(*u);
+                        if (u->will_unwind() || !u3.will_unwind() || u3.get_marker() != m)
+                            O->fail("memory_stack_raii_unwind move assignment: wrong state");
+                    }
+                    u->~Raii();
+                    break;
+                }
+                case 4:
+                { // release: the destructor must not unwind; unwind by hand afterwards
+                    u->release();
+                    if (u->will_unwind())
+                        O->fail("memory_stack_raii_unwind::release: will_unwind() still true");
+                    auto t = s.top();
+                    u->~Raii();
+                    if (s.top() != t)
+                        O->fail("a released memory_stack_raii_unwind unwound the stack in its destructor");
+                    s.unwind(m);
+                    break;
+                }
+                default: // explicit unwind(), then the destructor unwinds to the same marker again (no effect)
+                    u->unwind();
+                    if (s.top() != m)
+                        O->fail("memory_stack_raii_unwind::unwind() did not restore the marker");
+                    u->~Raii();
+                    break;
+                }
                 ++n_unwind;
                 O->live.resize(std::min(O->live.size(), live0));
                 O->verify_all("after unwind");
@@ -733,18 +790,24 @@ int main(int argc, char** argv)
     else if (subject == "lifo-static" || subject == "lifo-virtual" || subject == "lifo-fixed")
     { // C16: the LIFO-only block sources driven directly; out-of-order returns run in a child process
         const bool chk = FOONATHAN_MEMORY_DEBUG_POINTER_CHECK;
-        auto       run_lifo = [&](auto& src, const char* base, std::size_t shift, auto srcstr)
+        // `make(mem, second)` constructs a source in `mem` (second: a fresh object with its own storage, used as the
+        // target of a move assignment / partner of a swap); `str(src)` is the state dump; `off(p)` the printed address
+        auto run_lifo = [&](auto make, auto off, auto str)
         {
-            auto off = [&](const void* p) { return std::size_t(static_cast<const char*>(p) - base) + shift; };
+            using T = std::remove_pointer_t<decltype(make(nullptr, false))>;
+            alignas(T) static unsigned char buf[3][sizeof(T)];
+            int cur = 0;
+            T*  src = make(buf[0], false);
+            auto srcstr = [&] { return str(*src); };
             emit("src new " + srcstr(), "done", srcstr());
             std::vector<memory_block> got;
             for (long i = 0; i < nops; ++i)
             {
                 unsigned k = g.below(100);
-                if (k < 55)
+                if (k < 50)
                 {
                     memory_block b;
-                    std::string  res = guarded([&] { b = src.allocate_block(); });
+                    std::string  res = guarded([&] { b = src->allocate_block(); });
                     if (res.empty())
                     {
                         got.push_back(b);
@@ -755,17 +818,50 @@ int main(int argc, char** argv)
                         ++n_throw;
                     emit("src alloc_block", res, srcstr());
                 }
-                else if (k < 80 && !got.empty())
+                else if (k < 75 && !got.empty())
                 { // valid: the most recently allocated block (must never be reported)
                     auto b = got.back();
                     got.pop_back();
-                    src.deallocate_block(b);
+                    src->deallocate_block(b);
                     emit(fmt("src dealloc_block %zu %zu", off(b.memory), b.size), "done", srcstr());
+                }
+                else if (k < 87 && !bad_mode)
+                { // C12: the source is moved while blocks are outstanding; the new owner serves / takes back everything,
+                  // the moved-from object is destroyed (and must neither touch the memory nor stop the program)
+                    std::string before = srcstr();
+                    unsigned    how = unsigned(g.below(3));
+                    int         to = (cur + 1) % 3;
+                    if (how == 0)
+                    {
+                        T* n = ::new (static_cast<void*>(buf[to])) T(std::move(*src));
+                        src->~T();
+                        src = n;
+                        emit("src move", "done", srcstr());
+                    }
+                    else if (how == 1)
+                    { // move assignment onto a fresh object with storage of its own (which it must give up properly)
+                        T* n = make(buf[to], true);
+                        *n = std::move(*src);
+                        src->~T();
+                        src = n;
+                        emit("src move_assign", "done", srcstr());
+                    }
+                    else
+                    { // swap with a fresh object: it now owns the memory; the other one (fresh storage) is destroyed
+                        T* n = make(buf[to], true);
+                        swap(*n, *src);
+                        src->~T();
+                        src = n;
+                        emit("src swap", "done", srcstr());
+                    }
+                    cur = to;
+                    if (srcstr() != before)
+                        O->fail(fmt("block source after a move/move assignment/swap: state `%s`, before `%s`", srcstr().c_str(), before.c_str()));
                 }
                 else if (chk && bad_mode && got.size() >= 2)
                 { // invalid: any block but the most recent one
                     auto        b = got[g.below(got.size() - 1)];
-                    std::string out = in_child(srcstr, [&] { src.deallocate_block(b); });
+                    std::string out = in_child(srcstr, [&] { src->deallocate_block(b); });
                     bad_result(fmt("out-of-order deallocate_block(%zu) of a LIFO block source", off(b.memory)), out);
                     emit(fmt("src bad_dealloc_block %zu %zu", off(b.memory), b.size), out, srcstr());
                 }
@@ -774,26 +870,40 @@ int main(int argc, char** argv)
             {
                 auto b = got.back();
                 got.pop_back();
-                src.deallocate_block(b);
+                src->deallocate_block(b);
                 emit(fmt("src dealloc_block %zu %zu", off(b.memory), b.size), "done", srcstr());
             }
+            src->~T();
+            emit("src destroy", "done", "-");
         };
         if (subject == "lifo-static")
         {
             static const std::size_t SZ = 8192;
             auto* storage = static_cast<static_allocator_storage<SZ>*>(region.ptr(Region::blocks_lo + 4096));
+            auto* storage2 = static_cast<static_allocator_storage<SZ>*>(region.ptr(Region::blocks_lo + 4096 + SZ + 4096));
             std::size_t bs = (std::size_t[]){256, 512, 1024, 2048}[g.below(4)]; // must divide the storage size
-            static_block_allocator src(bs, *storage);
-            run_lifo(src, region.base, 0,
-                     [&] { return fmt("static:%zu:%zu:%zu", region.off(src.cur_), region.off(src.end_), src.block_size_); });
+            run_lifo([&](void* mem, bool second) { return mem ? ::new (mem) static_block_allocator(bs, second ? *storage2 : *storage)
+                                                              : static_cast<static_block_allocator*>(nullptr); },
+                     [&](const void* p) { return region.off(p); },
+                     [&](static_block_allocator& src) { return fmt("static:%zu:%zu:%zu", region.off(src.cur_), region.off(src.end_), src.block_size_); });
         }
         else if (subject == "lifo-virtual")
         {
-            std::size_t             bs = virtual_memory_page_size * (1 + g.below(3));
-            virtual_block_allocator src(bs, 2 + g.below(5));
-            const char*             base = src.cur_;
-            run_lifo(src, base, 4096,
-                     [&] { return fmt("static:%zu:%zu:%zu", std::size_t(src.cur_ - base) + 4096, std::size_t(src.end_ - base) + 4096, src.block_size_); });
+            std::size_t bs = virtual_memory_page_size * (1 + g.below(3));
+            std::size_t nb = 2 + g.below(5);
+            const char* base = nullptr;
+            run_lifo([&](void* mem, bool second) {
+                         if (!mem)
+                             return static_cast<virtual_block_allocator*>(nullptr);
+                         auto* v = ::new (mem) virtual_block_allocator(bs, nb);
+                         if (!second)
+                             base = v->cur_;
+                         return v;
+                     },
+                     [&](const void* p) { return std::size_t(static_cast<const char*>(p) - base) + 4096; },
+                     [&](virtual_block_allocator& src) {
+                         return fmt("static:%zu:%zu:%zu", std::size_t(src.cur_ - base) + 4096, std::size_t(src.end_ - base) + 4096, src.block_size_);
+                     });
         }
         else
         { // fixed_block_allocator: one block at a time; returning a block while none is outstanding is the invalid call
